@@ -11,6 +11,7 @@ All seams are removed again by ``uninstall``; with no SimFS installed the packag
 exactly as shipped.
 """
 import builtins
+import errno
 import datetime as _real_datetime
 import io
 import os
@@ -29,6 +30,9 @@ class WriteProxy(io.BufferedIOBase):
     can tear the stream after ``crash_after`` bytes."""
 
     def __init__(self, fs, real, relname, crash_after=None):
+        self._how = "crash"
+        if isinstance(crash_after, (tuple, list)):
+            crash_after, self._how = crash_after
         self._fs = fs
         self._real = real
         self._rel = relname
@@ -49,6 +53,11 @@ class WriteProxy(io.BufferedIOBase):
             self._real.flush()
             self._fs.log.append(("write", self._rel, self._pos, keep, "TORN"))
             self._pos += keep
+            if self._how == "enospc":
+                # the disk is full: this and every later write of the stream fails, the
+                # process lives on and the bytes that fitted stay in the file
+                self._crash_after = self._pos
+                raise OSError(errno.ENOSPC, "No space left on device (simulated)", self._rel)
             self._real.close()
             raise SimCrash(f"torn write of {self._rel} after {self._crash_after} bytes")
         self._real.write(data)
